@@ -36,11 +36,11 @@ VTL_KINDS = ("Runtime", "InputValidation", "DataLoad", "OtherVTL", "Semantic")
 MODELLED = {(s, d) for s in G.BASIC for d in G.BASIC} | {("Date", "String"), ("String", "Date"), ("Date", "Date"), ("Time", "String"),
                                                         ("Time", "Time"), ("Duration", "String"), ("String", "Duration"), ("Duration", "Duration")}
 # String values whose acceptance the documentation does not decide (lenient numeric syntax; formats of the input side)
+# (String -> Integer and String -> Duration are no longer here: since the repairs "cast("3.5", integer) returned 3" and "cast of a String
+#  component to duration accepted any text" the engine's accepted syntax IS parse_int / parse_duration of Model/Cast.v, compared strictly)
 UNSPEC = {
-    ("String", "Integer"): {"+5", "007", " 3 ", "3.0", "5.", ".5", "1e3", "1_000"},
     ("String", "Number"): {"+5", "007", " 3 ", "5.", ".5", "1e3", "1_000", "nan", "inf"},
     ("String", "Date"): {"2020-01-15 10:30:00", "2020-01-15T10:30:00"},
-    ("String", "Duration"): {"a", "p1y"},
     ("String", "Time"): {"2020", "2020-02", "2020-12-31/2020-01-01"},
     ("String", "Time_Period"): {"2020-01-15 10:30:00", "2020-01-15T10:30:00", "2021W53"},
 }
@@ -370,6 +370,7 @@ def plan(oracle: Oracle, tier: str, levels: List[str]) -> List[dict]:
 
 
 def corpus_cases() -> List[dict]:
+    """minimal failing cases of past findings (regression witnesses: `observed` is what the engine answered when the finding was made)"""
     out = []
     p = CORPUS / "C09"
     if p.exists():
@@ -377,7 +378,8 @@ def corpus_cases() -> List[dict]:
             try:
                 o = json.loads(f.read_text())
                 if o["src"] in G.POOL and o["dst"] in G.TYPES and o["value"] in G.POOLD[o["src"]]:
-                    out.append({"src": o["src"], "dst": o["dst"], "level": o["level"], "vals": [o["value"]], "corpus": f.name})
+                    out.append({"src": o["src"], "dst": o["dst"], "level": o["level"], "vals": [o["value"]], "corpus": f.name,
+                                "key": o.get("key"), "before": o.get("observed")})
             except Exception:
                 pass
     return out
@@ -565,6 +567,15 @@ def run(ctx):
     ctx.log(f"K: {n_runs} engine runs, {sum(len(v) for v in obs_all.values())} (pair, value, level) outcomes in {time.time() - t0:.0f}s")
     matrix: Dict[str, dict] = {}
     judge(ctx, oracle, obs_all, levels, F, matrix)
+    # regression witnesses: does the engine still answer what it answered when the finding was recorded?
+    reg = {"cases": len(corpus), "answer_changed": [], "answer_unchanged": []}
+    for x in corpus:
+        o = obs_all.get((x["src"], x["dst"], x["vals"][0]), {}).get(x["level"])
+        if o is None or not isinstance(x.get("before"), list):
+            continue
+        now = json.loads(json.dumps(list(observe(o)), default=str))
+        (reg["answer_unchanged"] if now == x["before"] else reg["answer_changed"]).append(x.get("key"))
+    ctx.cov["corpus_regression_witnesses"] = reg
 
     # ---- semantic_analysis alone: forbidden pairs are rejected before any data; allowed pairs predict type and measure name
     for (s, t, lvl), r in sorted(sem_struct.items()):
